@@ -396,6 +396,8 @@ def run(ctx):
     from .sweep import r16_14 as _r16_14, r16_15 as _r16_15
     _r16_14(ctx)
     _r16_15(ctx)
+    from .sweep import r16_16 as _r16_16
+    _r16_16(ctx)
     r16_13(ctx)
     r16_11(ctx)
     r16_12(ctx)
@@ -428,6 +430,8 @@ def run(ctx):
 
 _Q = 'billiard/queues.py'
 MUTANTS = [
+    ('put-does-not-wake-the-feeder', 'billiard/queues.py', "            self._buffer.append(obj)\n            self._notempty.notify()\n\n    def get(self, block=True, timeout=None):", "            self._buffer.append(obj)\n\n    def get(self, block=True, timeout=None):", 'R16.16'),
+    ('feeder-drops-the-item-on-posix', 'billiard/queues.py', "                            wacquire()\n                            try:\n                                send_bytes(obj)\n                            finally:\n                                wrelease()\n", "                            wacquire()\n                            wrelease()\n", 'R16.16'),
     ('feeder-waits-without-looking', _Q, "                    if not buffer:\n                        nwait()\n", "                    nwait()\n", 'R16.13'),
     ('put-writes-the-pipe-itself', _Q, "            self._buffer.append(obj)\n            self._notempty.notify()\n\n    def get(", "            if not self._buffer:\n                self._send_bytes(ForkingPickler.dumps(obj))\n                return\n            self._buffer.append(obj)\n            self._notempty.notify()\n\n    def get(", 'R16.11'),
     ('joinable-put-counts-after-publishing', _Q, "                self._buffer.append(obj)\n                self._unfinished_tasks.release()\n                self._notempty.notify()\n", "                self._buffer.append(obj)\n                self._notempty.notify()\n        with self._cond:\n            self._unfinished_tasks.release()\n", 'R16.12'),
